@@ -5,6 +5,7 @@ CONSTANTS
   DROP_AFTER_SCMP = FALSE
   VERIFY_CKSUM = TRUE
   UNK_ERR_IS_ERR = TRUE
+  ROUTER_VERIFY_CKSUM = TRUE
 INVARIANTS PQuoteBounded PQuotePrefix PQuoteChecksum PEchoAnswered PNoReplyToErrorOrMalformed PErrorsNotified PRouterNeverAnswersError DatagramsUnaffected ErrorsReachReceivers RepliesOnlyToRequests ConformsQuote ConformsHandle ConformsRouter ConformsSocket
 POSTCONDITION TraceAccepted
 CHECK_DEADLOCK FALSE
